@@ -317,7 +317,7 @@ NFC_SYMS = ['a', '\u1100', '\u1161', '\u11a8', '\u09c7', '\u09be', '\u212b', '\u
 ALIAS_STRS = ['a\u00e9%\u0378', '\u00f8b\\', 'ab', '\u20ac~']
 
 
-def check_alias(acc):
+def check_alias(acc, only=None):
     """Objects handed out by the module (built-in rule lists) are mutated by the caller; encoders built afterwards
     must still have the documented built-in rules."""
     from pylatexenc import latexencode as le
@@ -338,25 +338,56 @@ def check_alias(acc):
         le.UnicodeToLatexEncoder(conversion_rules=[name], unknown_char_warning=False).unicode_to_latex('a\u00e9')
     ops = [('insert', op_insert), ('clear', op_clear), ('encode', op_encode)]
     menu = [(on, of, tn) for (on, of) in ops for tn in ('defaults', 'unicode-xml')]
+
+    def history(seq):
+        # runs in a forked child: the module state is that of a process that never handed out a rule list
+        a2 = engine.Acc()
+        names = [menu[j][0] + ':' + menu[j][2] for j in seq]
+        for step, mi in enumerate(seq):
+            on, of, tn = menu[mi]
+            st, res = run_guarded(of, tn)
+            if st != 'ok':
+                a2.violation(ID, 'alias', dict(seq=names, step=step),
+                             dict(kind='unexpected-exception', exc=type(res).__name__ if st == 'exc' else st))
+                break
+            for tname in ('defaults', 'unicode-xml'):
+                enc = le.UnicodeToLatexEncoder(conversion_rules=[tname], unknown_char_warning=False)
+                for s in ALIAS_STRS:
+                    compare(enc, refs[tname], cfg, s, a2, dict(seq=names, step=step, table=tname, s=s), 'alias')
+        return a2
     for k in (1, 2, 3):
         for seq in itertools.product(range(len(menu)), repeat=k):
+            if only is not None and [menu[j][0] + ':' + menu[j][2] for j in seq] != only:
+                continue
             acc.count('alias_histories')
-            for step, mi in enumerate(seq):
-                on, of, tn = menu[mi]
-                st, res = run_guarded(of, tn)
-                if st != 'ok':
-                    acc.violation(ID, 'alias', dict(seq=[menu[j][0] + ':' + menu[j][2] for j in seq], step=step),
-                                  dict(kind='unexpected-exception', exc=type(res).__name__ if st == 'exc' else st))
-                    break
-                for tname in ('defaults', 'unicode-xml'):
-                    enc = le.UnicodeToLatexEncoder(conversion_rules=[tname], unknown_char_warning=False)
-                    for s in ALIAS_STRS:
-                        compare(enc, refs[tname], cfg, s, acc, dict(seq=[menu[j][0] + ':' + menu[j][2] for j in seq], step=step, table=tname, s=s), 'alias')
+            a2 = engine.in_child(history, seq)
+            if a2 is None:
+                acc.violation(ID, 'alias', dict(seq=[menu[j][0] + ':' + menu[j][2] for j in seq]), dict(kind='child-crashed'))
+            else:
+                acc.merge(a2)
+
+
 HELPER_STRS = ['a\u00e9%\u0378', '\u00f8b\\', '']
 
 
-def check_helper(b, acc, only=None):
+def _helper_history(seq):
+    """Runs in a forked child whose parent never called the module-level helper (cache empty)."""
     from pylatexenc import latexencode as le
+    bad = []
+    for step, oi in enumerate(seq):
+        kw = dict(dict(unknown_char_warning=False), **HELPER_OPTS[oi])
+        for s in HELPER_STRS:
+            try:
+                got = le.unicode_to_latex(s, **kw)
+            except Exception as e:
+                got = 'raised ' + type(e).__name__
+            exp = le.UnicodeToLatexEncoder(**kw).unicode_to_latex(s)
+            if got != exp:
+                bad.append((step, s, got, exp))
+    return bad
+
+
+def check_helper(b, acc, only=None):
     n = len(HELPER_OPTS)
     for k in range(1, b['NH'] + 1):
         for seq in itertools.product(range(n), repeat=k):
@@ -364,15 +395,13 @@ def check_helper(b, acc, only=None):
                 continue
             acc.count('evaluations')
             acc.count('helper_histories')
-            for step, oi in enumerate(seq):
-                kw = HELPER_OPTS[oi]
-                for s in HELPER_STRS:
-                    kw = dict(dict(unknown_char_warning=False), **kw)
-                    got = le.unicode_to_latex(s, **kw)
-                    exp = le.UnicodeToLatexEncoder(**kw).unicode_to_latex(s)
-                    if got != exp:
-                        acc.violation(ID, 'helper', dict(seq=list(seq), step=step, s=s),
-                                      dict(kind='cached-helper-differs-from-fresh-encoder'), observed=repr(got), expected=repr(exp))
+            bad = engine.in_child(_helper_history, seq)
+            if bad is None:
+                acc.violation(ID, 'helper', dict(seq=list(seq)), dict(kind='child-crashed'))
+                continue
+            for (step, s, got, exp) in bad[:1]:
+                acc.violation(ID, 'helper', dict(seq=list(seq), step=step, s=s),
+                              dict(kind='cached-helper-differs-from-fresh-encoder'), observed=repr(got), expected=repr(exp))
 
 
 def replay(sub, case):
@@ -404,7 +433,7 @@ def replay(sub, case):
     elif sub == 'helper':
         check_helper(b, acc, only=case['seq'])
     elif sub == 'alias':
-        check_alias(acc)
+        check_alias(acc, only=case['seq'])
     else:
         run_shard((sub, 0), 'thorough', acc)
     return acc.violations
